@@ -1,0 +1,15 @@
+//go:build verif
+
+package types
+
+// Machine-checked contracts for the govc verifier (/verif). Comment-only; compiled only with -tags verif.
+
+// Putting a stored order into the book (C05): the amount offered to the matching engine is never more than what is still
+// open on the order (so an order cannot be filled beyond its amount over several batches), and a buy order never offers
+// more than its remaining offer coin affords at its limit price.
+//@ func NewUserOrder
+//@   property C05
+//@   requires #shape: order.OpenAmount >= 0 && order.RemainingOfferCoin.Amount >= 0 && order.Price > 0
+//@   ensures #c05-never-more-than-open: result.BaseOrder.Amount <= order.OpenAmount && result.BaseOrder.OpenAmount <= order.OpenAmount
+//@   ensures #c05-sell-offers-open-amount: order.Direction == OrderDirectionSell ==> result.BaseOrder.Amount == order.OpenAmount
+//@   ensures #c05-offer-is-remaining: result.BaseOrder.OfferCoinAmount == order.RemainingOfferCoin.Amount && result.BaseOrder.Price == order.Price
